@@ -34,7 +34,7 @@ OPEN_STATEMENTS = [
     'soundness is proved against the abstract (anti)commutation relations (any ring interpretation satisfying CAR / CCR / [q,p] = i hbar); for the fermionic Spec the CAR are proved state by state (spec_car_*), but the packaging as a ring interpretation (linear extension) is not formalised, and the CCR / [q,p] relations of the polynomial Spec are not proved: these instances are checked by spec.eq on every generated case',
     'no concrete non-trivial ring interpretation is exhibited in Lean for the Relations hypotheses (non-vacuity of the abstract soundness theorems rests on the standard Fock / Weyl representations)',
     'InteractionOperator branch, chemist_ordered and reorder: correspondence + oracle only (no theorem)',
-    'termination fuel: noTerm uses fuel len(term)+1; sufficiency is checked by the correspondence run (an exhausted fuel would drop terms and break the tie) rather than proved',
+    'termination fuel: noTerm uses fuel len(term)+1; that this fuel never runs out is a consequence of the soundness theorem for tolerance 0 (an exhausted fuel would return the empty dictionary) and is otherwise covered by the correspondence run',
 ]
 
 
